@@ -300,7 +300,7 @@ func randTree(r *hx.Rng, depth int) *tree {
 		t.wt = 2
 		if r.Bool() {
 			t.str = true
-			pool := "héllo wörld\n✓ [0x00] tag: 1, wire type: varint"
+			pool := "héllo wörld\n✓ [0x00] tag: 1, wire type: varint%d%s%!%v\\\"\t"
 			rs := []rune(pool)
 			n := r.Intn(10)
 			var sb strings.Builder
